@@ -7,6 +7,7 @@ V = os.path.dirname(os.path.dirname(os.path.abspath(__file__)))
 TECH = "TLA+ specification checked with TLC; conformance by replaying TLC-enumerated scenarios into the library and validating the recorded traces against the specification with TLC (trace spec)"
 
 CHECKS = {
+ "C14": ("4 C14", "MC_Slots in 'recover' mode: TLC enumerates every garbage member up to length 2 (quick) / 3 (thorough) over the vocabulary without the item's terminators and braces, in 11 frames with well-formed siblings; the trace spec parses the document with and without the garbage member (AidlParse) and demands a tree, the siblings in order and unchanged (members salvaged from inside the garbage are allowed), at least one Error and every syntax Error inside the extent of the garbage member (AidlLayout offsets)."),
  "C02": ("4 C02", "AidlParse.ParseToks is the grammar as a deterministic tree builder over the NON-trivia pieces (layout invariance is a theorem of the specification); every Add event carries its document as pieces and the trace spec requires the parse-stage tree to mirror the specification's tree node by node (names, kinds, type structure, directions, optional names, oneway flags, transact codes, values, annotations), for TLC-enumerated family documents and rich generated documents under many layouts."),
  "C03": ("4 C03", "MC_Slots: TLC enumerates every token string up to length 2 (quick) / 3 (thorough) over 34 terminals + a 33-bit INTEGER in 16 syntactic slots and decides each with the specification's tree builder; the trace spec re-derives the verdict from the pieces and demands tree + no syntax diagnostic iff well-formed, at least one Error otherwise, no parse-stage diagnostic dropped by validation, no keyword / reserved word among the stored identifiers; plus token-mutated rich documents."),
  "C04": ("4 C04", "AidlLayout computes every position from the pieces (UTF-8 offsets, line, grapheme-cluster column) and the expected name / full ranges from the token indices of AidlParse; the trace spec checks exactness, the allowed start / end sets, nesting, sibling order and well-formedness of every range in trees, diagnostics and related infos, the one-token rule for syntax diagnostics and the first-offending-token rule, on well-formed and malformed inputs."),
